@@ -55,6 +55,18 @@ def run(W, chk):
             and "div_ceil" not in allops and "div:r" in m["Store(POOLS).assets[*].amount"] and "div:l" in m["info.funds[*].amount"]
         chk.expect(ok, "PROV-cp-shares", "funded pool", "shares = min_i floor(deposit_i * supply / reserve_i)",
                    "constant-product shares computed as %s" % {k: sorted(v) for k, v in m.items()}, where(e))
+    # the min is over the shares of two different assets (when they are picked by constant position)
+    from rules.common import positions
+    mins = [e for e in A.calls(r"cmp::min$|Ord::min$") if len(e.extra["dargs"]) == 2 and
+            {"Query(supply)", "info.funds[*].amount"} <= all_origins(e.extra["dargs"][0]) | all_origins(e.extra["dargs"][1])]
+    pm = [(positions(e.extra["dargs"][0]), positions(e.extra["dargs"][1]), e) for e in mins]
+    pm = [t for t in pm if t[0] and t[1]]
+    if pm:
+        for (p0, p1, e) in pm:
+            chk.expect(not (p0 & p1), "PROV-cp-shares", "min operands", "min over the shares of different assets (positions %s / %s)" % (sorted(p0), sorted(p1)),
+                       "min(shares%s, shares%s): both operands are the same asset's share, the other asset no longer limits the mint" % (sorted(p0), sorted(p1)), where(e))
+    else:
+        chk.skip("PROV-cp-shares", "min operands", "the per-asset shares are not picked by constant position")
     # ---- constant product, empty pool
     pol = CutPolicy([ASSUME_CP, EMPTY_POOL, NOT_SINGLE])
     A = W.run(PM, "execute", ("ProvideLiquidity",), pol)
